@@ -181,6 +181,7 @@ class MoveProp(core.Prop):
         model, ms, is_ = reply
         if is_[self.spec_idx] not in (0, 1):
             raise ValueError("driver could not parse the implementation outcome")
+        case.tags.append("preWInv:%d" % ms[2])
         return core.Verdict(wire.enc(model), ms[self.spec_idx] == 1, is_[self.spec_idx] == 1)
 
 
